@@ -243,6 +243,12 @@ class Interp(Engine):
         # "literal".format(...) builds a log/exception message: ignored effect (arguments not evaluated)
         if isinstance(n.func, ast.Attribute) and n.func.attr == "format" and \
                 isinstance(n.func.value, ast.Constant) and isinstance(n.func.value.value, str) and not self.spec:
+            fh_ = self.reg.external_named("literal.format")
+            if fh_ is not None:
+                # a contract that models the formatted text (C40 hex codecs) supplies the value; None = not modelled
+                r_ = fh_(self, [n.func.value.value] + [self.eval(a_) for a_ in n.args], {})
+                if r_ is not None:
+                    return r_
             return Opaque_("format")
         # spec-only special forms
         if isinstance(n.func, ast.Name):
@@ -250,6 +256,14 @@ class Interp(Engine):
             if sf is not None and (self.spec or n.func.id not in self.frame.env):
                 if self.spec or n.func.id in B.EXEC_SPECIALS:
                     return sf(self, n)
+        # sum(<generator / comprehension>) over an abstract symbolic-length sequence: the contract module may
+        # supply the value through REG.sum_hook (returns None when it does not apply: normal evaluation follows)
+        if isinstance(n.func, ast.Name) and n.func.id == "sum" and n.func.id not in self.frame.env and \
+                len(n.args) == 1 and not n.keywords and isinstance(n.args[0], (ast.GeneratorExp, ast.ListComp)) \
+                and not self.spec and getattr(self.reg, "sum_hook", None) is not None:
+            r_ = self.reg.sum_hook(self, n)
+            if r_ is not None:
+                return r_
         # super().m(...)
         if isinstance(n.func, ast.Attribute) and isinstance(n.func.value, ast.Call) and \
                 isinstance(n.func.value.func, ast.Name) and n.func.value.func.id == "super":
@@ -1076,7 +1090,7 @@ class Interp(Engine):
                 env["result"] = res
                 self.assuming += 1
                 try:
-                    for text in c.ensures:
+                    for text in list(c.ensures) + list(c.ensures_exc):
                         self.assume(self.spec_eval(text))
                 finally:
                     self.assuming -= 1
@@ -1088,7 +1102,7 @@ class Interp(Engine):
             else:
                 exc = c.make_exc(self, which, fv.rel)
                 env["exc"] = exc
-                for text in c.raises[which]:
+                for text in list(c.raises[which]) + list(c.ensures_exc):
                     self.assume(self.spec_eval(text))
                 raise PyRaise(exc)
         finally:
